@@ -10,7 +10,7 @@ from vlib.core import Machinery
 RULE = ("Flow A: TLC enumerates every canonical decimal string up to MaxDigits digits x operand 0..9 x {add, mul, div, sub}, "
         "steps the digit-serial machines one loop iteration per action (refinement invariants in every state, exactness at the "
         "end) and exports (input, result, transition path); every record is replayed into calculus_*. Flow B: seeded strings up "
-        "to 1300 digits, including carry/borrow chains, are run through the code and re-computed by the machines in "
+        "to 4400 digits, including carry/borrow chains and products that are exact powers of ten, are run through the code and re-computed by the machines in "
         "Trace_Bignum. Distinct non-trivial = distinct (op, number, operand) with at least two digits.")
 
 FN = {"add": dsw.calculus_addition, "mul": dsw.calculus_multiplication, "div": dsw.calculus_division,
@@ -55,11 +55,28 @@ def gen_numbers(rng, n, maxlen):
     return out
 
 
-def record_ops(rng, nums):
+def ripple_cases():
+    """Inputs whose product with b is 10^M (+ a small rest): the carry ripples through every position, whatever the width in which an
+    implementation groups digits; and 10^M - 1 + operand for addition, 10^M - operand for subtraction."""
+    out = []
+    for M in (5, 17, 18, 19, 20, 36, 37, 38, 54, 100):
+        for b in range(2, 10):
+            r = (-10 ** M) % b
+            for extra in (0, b * 10 ** (M + 1), 7 * b * 10 ** (2 * M)):
+                n = (10 ** M + r + extra) // b
+                out.append(([int(c) for c in str(n)], "mul", b))
+                out.append(([int(c) for c in str(n * b)], "div", b))
+        out.append(([9] * M, "add", 1))
+        out.append(([1] + [0] * M, "sub", 1))
+    return out
+
+
+def record_ops(rng, nums, fixed=()):
     cases = []
-    for ds in nums:
-        for op in ("add", "mul", "div", "sub"):
-            b = rng.randint(0, 9)
+    todo = [(ds, op, None) for ds in nums for op in ("add", "mul", "div", "sub")] + [(ds, op, b) for ds, op, b in fixed]
+    if True:
+        for ds, op, fb in todo:
+            b = rng.randint(0, 9) if fb is None else fb
             if op == "sub" and len(ds) == 1 and ds[0] < b:
                 b = rng.randint(0, ds[0])
             r = impl.call(FN[op], s10(ds), str(b))
@@ -107,7 +124,8 @@ def run(ctx):
     # ---- Flow B
     rng = random.Random(ctx.seed * 104729 + 15)
     nums = gen_numbers(rng, 120 if ctx.quick else 1200, 1300)
-    cases = record_ops(rng, nums)
+    nums += [[rng.randint(1, 9)] + [rng.randint(0, 9) for _ in range(4399)], [9] * 4400]        # beyond 4300 digits
+    cases = record_ops(rng, nums, fixed=ripple_cases())
     got = validate(ctx, cases, "c15_trace.json")
     blabels = set()
     for i, c in enumerate(cases, 1):
